@@ -503,5 +503,54 @@ pub fn run_c08(ctx: &mut Ctx) {
             emit_decode(ctx, &es[j], &tys[j].0, &tys[j].1, &b);
         }
     }
+    // numbers at the ends of the 128-bit host types, on the wire as `nat` and as `int`, alone and in a vector, decoded at
+    // every numeric corpus type (`nat <: int`: an `i128` reads a wire `nat`, which has its own conversion)
+    {
+        use num_bigint::BigInt;
+        let one = BigInt::from(1u8);
+        let edges: Vec<BigInt> = vec![
+            (one.clone() << 127usize) - 1u8,
+            one.clone() << 127usize,
+            (one.clone() << 128usize) - 1u8,
+            one.clone() << 128usize,
+            one.clone() << 63usize,
+            (one.clone() << 64usize) - 1u8,
+            BigInt::from(42u8),
+            -(one.clone() << 127usize),
+            -(one.clone() << 127usize) - 1u8,
+            -one.clone(),
+        ];
+        for v in &edges {
+            for as_int in [false, true] {
+                if !as_int && v < &BigInt::from(0u8) {
+                    continue;
+                }
+                let mut num: Vec<u8> = vec![];
+                if as_int {
+                    let _ = candid::Int(v.clone()).encode(&mut num);
+                } else {
+                    let _ = candid::Nat(v.to_biguint().unwrap()).encode(&mut num);
+                }
+                let opcode: u8 = if as_int { 0x7c } else { 0x7d };
+                let mut single = b"DIDL\x00\x01".to_vec();
+                single.push(opcode);
+                single.extend_from_slice(&num);
+                let mut vecm = b"DIDL\x01\x6d".to_vec();
+                vecm.push(opcode);
+                vecm.extend_from_slice(&[0x01, 0x00, 0x02, 0x2a]);
+                vecm.extend_from_slice(&num);
+                for name in ["i128", "u128", "Int", "Nat", "Option<u128>", "Wrap<u128>"] {
+                    if let Some(j) = find(name) {
+                        emit_decode(ctx, &es[j], &tys[j].0, &tys[j].1, &single);
+                    }
+                }
+                for name in ["Vec<i128>", "Vec<u128>", "Vec<Int>", "Vec<Nat>", "[u128;2]"] {
+                    if let Some(j) = find(name) {
+                        emit_decode(ctx, &es[j], &tys[j].0, &tys[j].1, &vecm);
+                    }
+                }
+            }
+        }
+    }
     let _ = TypeInner::Null;
 }
